@@ -251,3 +251,18 @@ mod tests {
         assert_eq!(src_box, dst_box);
     }
 }
+
+#[cfg(mp4_verif)]
+pub fn verif_item_to_bytes(item: &IlstItemBox) -> &[u8] {
+    item_to_bytes(item)
+}
+
+#[cfg(mp4_verif)]
+pub fn verif_item_to_str(item: &IlstItemBox) -> Cow<str> {
+    item_to_str(item)
+}
+
+#[cfg(mp4_verif)]
+pub fn verif_item_to_u32(item: &IlstItemBox) -> Option<u32> {
+    item_to_u32(item)
+}
